@@ -229,7 +229,35 @@ func runC18(s *core.Sim, tier string) RunInfo {
 		desc = append(desc, fmt.Sprintf("a second caller asks for (%d:%d) at the same time", from2, to2))
 		s.Probe("two-range-requests-at-once")
 	}
+	// or the Exchange is stopped while the request is in flight: whatever the request then returns,
+	// it returns (no hang until the caller's deadline is long gone) and nothing panics
+	stopped := false
+	if s.Tape.Coin("exchange-stopped-mid-request", 1, 8) {
+		stopped = true
+		side = append(side, s.Go("exchange-stop", func() {
+			s.YieldAfter("stop-after", time.Duration(s.Tape.Draw("stop-after-ms", 80))*time.Millisecond)
+			c, cancel := context.WithTimeout(context.Background(), time.Minute)
+			defer cancel()
+			_ = w.Ex.Stop(c)
+		}))
+		desc = append(desc, "the Exchange is stopped while the request is in flight")
+		s.Probe("exchange-stopped-mid-request")
+	}
 	stuck := s.Settle(2*budget+5*time.Second, append(side, t)...)
+	if stopped {
+		info := RunInfo{Nontrivial: true, StateKey: fmt.Sprint(desc, chunk, fromH, to), Evals: 1}
+		for _, tk := range append(side, t) {
+			if tk.Panic != nil {
+				s.Violate("panic", map[string]string{"racing": "stop"}, "%s panicked while the Exchange was being stopped: %v\n%s", tk.Name, tk.Panic, tk.Stack)
+				return info
+			}
+		}
+		if len(stuck) > 0 {
+			s.Violate("hang", map[string]string{"racing": "stop", "op": opName(stuck[0].Name)}, "%s did not return after the Exchange was stopped [%v]", stuck[0].Name, desc)
+		}
+		w.Ex = nil // stopped already: nothing for the teardown to stop
+		return info
+	}
 	if to2 != 0 && len(stuck) == 0 {
 		if gerr2 != nil || uint64(len(got2)) != to2-from2-1 {
 			s.Violate("honest-range-failed", map[string]string{"caller": "second"}, "concurrent GetRangeByHeight(%d,%d): err=%v len=%d although peer%d holds everything and is healthy [%v chunk=%d]", from2, to2, gerr2, len(got2), capable, desc, chunk)
